@@ -356,10 +356,12 @@ Fixpoint unit_loop (ls : list N) (idx : nat) (delta : N) : N * N * nat :=
       if (d <? next_limit idx) || (match t with [] => true | _ => false end) then (d, small, idx)
       else unit_loop t (S idx) d
   end.
+(* the argument is taken as int64_t and llabs() is applied *)
+Definition llabs64 (ns : N) : N := if ns <? 9223372036854775808 then ns else M64 - ns.
 Definition fmt_time (ns : N) : option (N * N * N) :=
   if ns =? 0 then None
   else
-    let '(d, s, idx) := unit_loop limits 0 ns in
+    let '(d, s, idx) := unit_loop limits 0 (llabs64 ns) in
     let '(d, s) := if 999 <? d then (999, 999) else (d, s) in
     Some (d, s, N.of_nat idx).
 
